@@ -9,7 +9,7 @@ import vlib
 KEY_OVERLAP = "overlapping-activations"
 KEY_APPEND = "failed-index-append-leaves-mapping"
 STATES = ["valid", "revoked", "activated", "absent"]
-KINDS = {"act": 0, "rev": 1, "tick": 2, "list": 3, "stall": 4}
+KINDS = {"act": 0, "rev": 1, "tick": 2, "list": 3, "stall": 4, "cancel": 4}   # a cancellation is a 0 s stall for the model
 
 
 def act(listen, laddr=0, fault=-1, nocode=False):
@@ -82,6 +82,28 @@ def stall(d):
     """d seconds pass on the store's clock (key lifetimes run out); the callers' own clock is not moved, so the sum of the
     stalls of a case stays well below the 600 s activation window"""
     return {"kind": "stall", "listen": d, "laddr": 0, "fault": -1, "nocode": False}
+
+
+def cancel(k):
+    """the service context of caller k is cancelled (node shutdown / service Close racing with the call in flight)"""
+    return {"kind": "cancel", "listen": k, "laddr": 0, "fault": -1, "nocode": False}
+
+
+def cancel_cases(rng, n_act, thorough):
+    """crash points: the service context of a caller is cancelled at every storage-operation boundary of its call; the
+    call runs on (the code decides); then the code is activated again from a FRESH service over the same store"""
+    out = []
+    for w in ("", "cluster"):
+        for p in range(0, n_act + 2):
+            for again in (act(102, 1), act(101, 2)):
+                out.append(case([act(101, 0), dict(again), cancel(0)], [0] * p + [2] + [0] * 16 + [1] * 14, world=w))
+            out.append(case([rev(), act(102, 1), cancel(0)], [0] * p + [2] + [0] * 8 + [1] * 14, world=w))
+            out.append(case([act(101, 0, fault=rng.choice(range(10))), act(102, 1), cancel(0)], [0] * p + [2] + [0] * 16 + [1] * 14, world=w))
+    for _ in range(3000 if thorough else 120):          # both callers' contexts cancelled somewhere in a random interleaving
+        ths = [act(101, 0, fault=rng.choice([-1, -1, -1] + list(range(10)))), rng.choice([act(102, 1), act(101, 2), rev()]),
+               cancel(0), cancel(1), act(103, 0)]
+        out.append(case(ths, rand_merge(rng, [n_act + 3, n_act + 3, 1, 1, 0]) + [4] * 14, world=rng.choice(["", "cluster"])))
+    return out
 
 
 def stall_cases(rng, n_act, thorough):
@@ -325,7 +347,8 @@ def run_parallel(binary, cases, par=8):
 
 
 def case_value(c, o):
-    ths = [[KINDS[t["kind"]], t["listen"], t["laddr"] + 1, t["fault"] + 1, bool(t["nocode"])] for t in c["threads"]]
+    ths = [[KINDS[t["kind"]], 0 if t["kind"] == "cancel" else t["listen"], t["laddr"] + 1, t["fault"] + 1, bool(t["nocode"])]
+           for t in c["threads"]]
     obs = [[t["res"], t["map"] + 2, list(t["trace"])] for t in o["threads"]]
 
     def rec(r):
@@ -386,6 +409,8 @@ def run(ctx, only_cases=None):
         cases += listing_cases(ctx.rng, n_act, 4 if claim else 3, thorough)
         # TIME: stalls of the store's clock between a caller's actions
         cases += stall_cases(ctx.rng, n_act, thorough)
+        # crash points: service context cancelled at each storage-operation boundary, then a fresh activation
+        cases += cancel_cases(ctx.rng, n_act, thorough)
         # last-second cells: the same overlapping schedules on a code that lives 900 ms
         cases += [last_second(c) for c in parked_cases("") + parked_cases("cluster")]
         cases += [last_second(c) for c in ctx.rng.sample(ex, min(len(ex), 20000 if thorough else 200))]
@@ -436,13 +461,14 @@ def run(ctx, only_cases=None):
     nontriv = set()
     stats = {"activators": 0, "revokers": 0, "ticks": 0, "faults_hit": 0, "successes": 0, "overlapping_runs": 0,
              "initial_state": {s: 0 for s in STATES}, "structured": 0, "malformed": 0, "ambiguous_timing_skipped": 0,
-             "listing_callers": 0, "last_second_cells": 0, "stalls": 0, "cluster_world_runs": 0, "shared_service_instance_runs": 0, "entries_skipped_caller_blocked_outside_store": 0,
+             "listing_callers": 0, "last_second_cells": 0, "stalls": 0, "service_context_cancellations": 0, "cluster_world_runs": 0, "shared_service_instance_runs": 0, "entries_skipped_caller_blocked_outside_store": 0,
              "model_unmodelled_branch_skipped": unmodelled}
     for c, o in zip(cases, outs):
         stats["activators"] += sum(t["kind"] == "act" for t in c["threads"])
         stats["revokers"] += sum(t["kind"] == "rev" for t in c["threads"])
         stats["ticks"] += 1 if o["ticked"] else 0
         stats["listing_callers"] += sum(t["kind"] == "list" for t in c["threads"])
+        stats["service_context_cancellations"] += sum(1 for t, ti in zip(o["threads"], c["threads"]) if ti["kind"] == "cancel" and t["res"] == 100)
         stats["stalls"] += sum(1 for t, ti in zip(o["threads"], c["threads"]) if ti["kind"] == "stall" and t["res"] == 100)
         stats["last_second_cells"] += 1 if c.get("ttl_ms") else 0
         stats["cluster_world_runs"] += 1 if c.get("world") == "cluster" else 0
